@@ -49,7 +49,26 @@ let fs_mode () =
       end
     done
   with End_of_file -> ()
+(* --join: full reference resolution.  case `J <base scheme hex> <base path hex> <reference hex>`;
+   answer S|<path> (same scheme and authority), A|<scheme>|<authority text>, O|<scheme>|<rest> *)
+let join_mode () =
+  try
+    while true do
+      let line = input_line stdin in
+      if String.length line > 0 && line.[0] <> '#' then begin
+        match split_ws line with
+        | ["J"; sch; bp; r] ->
+          let ((tag, a), b) = resolve_case (bytes_of_tok sch) (bytes_of_tok bp) (bytes_of_tok r) in
+          print_endline (match int_of_z tag with
+              | 0 -> "S|" ^ hex_of a
+              | 1 -> "A|" ^ hex_of a ^ "|" ^ hex_of b
+              | _ -> "O|" ^ hex_of a ^ "|" ^ hex_of b)
+        | _ -> print_endline "E;;bad case line"
+      end
+    done
+  with End_of_file -> ()
 let () =
+  if Array.length Sys.argv > 1 && Sys.argv.(1) = "--join" then (join_mode (); exit 0);
   if Array.length Sys.argv > 1 && Sys.argv.(1) = "--fs" then (fs_mode (); exit 0);
   if Array.length Sys.argv > 1 && Sys.argv.(1) = "--url" then (url_mode false; exit 0);
   if Array.length Sys.argv > 1 && Sys.argv.(1) = "--url-cab" then (url_mode true; exit 0);
